@@ -23,9 +23,9 @@ func init() {
 		Doc: "context isolation: fresh context per transition with the options-ended flag copied, the same context goes to the recursive call, Merge only on its success, Merge appends in order", Run: fsm4})
 	register(&Rule{ID: "FSM-5", Props: []string{"C02", "C06", "C07", "C13", "C19"}, Floor: 4,
 		Doc: "Set/Clear are invoked only by the container filler and the env application; the filler runs only after a successful match and its error is returned", Run: fsm5})
-	register(&Rule{ID: "FSM-6", Props: []string{"C02", "C06", "C12", "C13", "C15", "C19"}, Floor: 6,
+	register(&Rule{ID: "FSM-6", Props: []string{"C02", "C06", "C12", "C13", "C15", "C19", "C07"}, Floor: 6,
 		Doc: "fill protocol: Clear once (guarded only by the MultiValued assertion) before the values, Set(v) for every value in order, error returned at once, then ValueSetFromEnv=false and *ValueSetByUser=true", Run: fsm6})
-	register(&Rule{ID: "FSM-7", Props: []string{"C01", "C09"}, Floor: 3,
+	register(&Rule{ID: "FSM-7", Props: []string{"C01", "C09", "C02"}, Floor: 3,
 		Doc: "command-line `--`: stripped only while options are not ended, sets the flag, drops exactly the first token; the accept test is made on the vector handed to the matchers", Run: fsm7})
 	register(&Rule{ID: "FSM-8", Props: []string{"C03", "C12"}, Floor: 4,
 		Doc: "recursion progress: every successful Match of a matcher that survives Prepare consumes input (or nothing cuts the recursion)", Run: fsm8})
@@ -1683,22 +1683,30 @@ func fsm8(c *Ctx) {
 					}
 				}
 				if eliminated[tn.Name()] {
+					mk := len(c.Obs)
 					c.OK(base+"[eliminated]", fn.Pos(), "transitions of this matcher are removed by shortcut elimination before any parse (FSM-1)")
+					c.Scope(mk, "C03")
 					break
 				}
 				reported := false
 				for _, kind := range []string{"env-fallback", "non-consuming"} {
 					if pos, ok := by[kind]; ok {
 						reported = true
+						mk := len(c.Obs)
 						c.Bad(base+"["+kind+"]", pos, "Match can succeed returning its input vector unchanged; fsm.apply recurses on the next state with the same vector and nothing bounds a cycle through such matchers (unbounded recursion)")
+						if kind != "env-fallback" {
+							c.Scope(mk, "C03") // not related to environment values
+						}
 					}
 				}
 				if !reported {
+					mk := len(c.Obs)
 					if _, ok := by["consuming"]; ok {
 						c.OK(base, fn.Pos(), "every successful return hands back a proper suffix or a rebuilt, smaller vector")
 					} else {
 						c.Undecided(base, fn.Pos(), "no successful return recognised")
 					}
+					c.Scope(mk, "C03")
 				}
 				break
 			}
